@@ -20,6 +20,9 @@ CHECKS = {
  "C09": ("2/C09", TECH + ": start values x precisions x offsets x units x amounts x {+,-} enumerated as a grid of direct Add/Sub calls and through Evaluate, vs an independent proleptic-Gregorian day-count model",
          "every cell of the grid is executed on the real system.{Date,DateTime,Time}.{Add,Sub} (and every type/precision/unit/op combination through Compile/Evaluate) and compared with a calendar model that shares no code with the repository; monotonicity and (x+q)-q=x are checked on the implementation's own outputs",
          "years outside 2019-2022 only at listed edge days; the model (harness/lib/reftime.go, c09Ref) is trusted; documented latitude for UCUM spellings and finer-than-precision units"),
+ "C19": ("2/C19", TECH + ": all 146 type names x id/version/base pools x reference forms; every single edit of seed strings x every parser; reference.Is over all triples of a reference pool",
+         "every generated identity/reference string is formatted and parsed by every parser of the repository and compared component-wise; parse-format-parse stability for every accepted string; typed vs weak references built with google/fhir normalisation; equivalence laws over all triples",
+         "id alphabet per FHIR R4; ids/versions/bases outside the pools and multi-byte edits are not covered"),
  "C10": ("2/C10", TECH + ": all collections up to a length bound over an 8-item alphabet x criteria x all positions n; all ordered collection pairs for the set functions",
          "every collection of the alphabet up to the bound is pushed through where/select/exists/all/take/skip/indexer/distinct and every ordered pair through exclude/intersect on the real code; results compared by pointer identity with a slice reference model and with the equations of the statement",
          "reference equality partition of the alphabet is hand-written; collections longer than the bound and other item types only via the path-derived sub-space"),
